@@ -63,7 +63,8 @@ def serScalar : J → Except Err Str
   | .str s => .ok s
   | .num i => .ok (intStr i)
   | .bool b => .ok (if b then "true".toList else "false".toList)
-  | .null => .error (.leaked "TypeError")              -- `" ".join` over a `None` item
+  -- `" ".join` over a `None` item: `bind_text` reports the TypeError as ParserError
+  | .null => .error (.parser "Failed to bind value: null item in a list of tokens")
   | _ => .error (.unsupported "serialize of a nested value")
 
 /-- `converter.serialize(value)` on a loaded JSON value (`None` stays `None`) -/
@@ -180,7 +181,7 @@ def bindComplexWith (rec : Rec) (Γ : Ctx) (cfg : ParserConfig) (m : XmlMeta) (v
   else if var.anyType || var.isWildcard then bindBestWith rec Γ cfg false (metaElementTypes m) data
   else
     match var.clazz with
-    | none => ND.fail (.leaked "AssertionError")
+    | none => ND.fail (.parser "Failed to bind object to a field of primitive type")   -- `if var.clazz is None: raise ParserError`
     | some c =>
       let subs := subclassesOf Γ c
       if !subs.isEmpty then bindBestWith rec Γ cfg false (subs ++ [c]) data
@@ -261,8 +262,9 @@ def bindAttributes (value : J) : Except Err Val :=
     | none => .error (.unsupported "attributes with values that are not strings")
   | .arr [] => .ok (.attrs [])
   | .str [] => .ok (.attrs [])
-  | .null | .num _ | .bool _ => .error (.leaked "TypeError")
-  | .str _ => .error (.leaked "ValueError")
+  -- `except (TypeError, ValueError): raise ParserError` around `dict(value)`
+  | .null | .num _ | .bool _ => .error (.parser "Failed to bind value to the attributes field")
+  | .str _ => .error (.parser "Failed to bind value to the attributes field")
   | .arr _ => .error (.unsupported "attributes from a sequence")
 
 /-- `bind_value(meta, var, value, recursive=True)` : one item of a repeating element -/
@@ -303,6 +305,11 @@ def unwrapValue (var : XmlVar) (value : J) : Except Err J :=
       | none => .error (.leaked "KeyError")
     | _ => .error (.leaked "TypeError")
 
+/-- `if var.wrapper and var.local_name != key: value = value[var.local_name]` : the value is
+only unwrapped when it was found under the wrapper key -/
+def unwrapFor (var : XmlVar) (key : Str) (value : J) : Except Err J :=
+  if var.localName = key then .ok value else unwrapValue var value
+
 /-- the loop `for key, value in data.items()` of `bind_dataclass` -/
 def bindPairsWith (e : BEnv) (rec : Rec) (Γ : Ctx) (cfg : ParserConfig) (m : XmlMeta) (vars : List XmlVar) :
     List (Str × J) → Params → ND Params
@@ -313,7 +320,7 @@ def bindPairsWith (e : BEnv) (rec : Rec) (Γ : Ctx) (cfg : ParserConfig) (m : Xm
       if cfg.failOnUnknownProperties then ND.fail (.parser "Unknown property")
       else bindPairsWith e rec Γ cfg m vars rest params
     | some var =>
-      match unwrapValue var value with
+      match unwrapFor var key value with
       | .error err => ND.fail err
       | .ok value =>
         ND.bind (bindValueWith e rec Γ cfg m var value) fun v =>
